@@ -15,6 +15,7 @@ import PgProofs.C05Paths
 import PgProofs.C05Typed
 import PgProofs.C05Sig
 import PgProofs.C05Handles
+import PgProofs.C05Dna
 namespace Pg.C05
 
 /-! ## T-SIG: value specs can be rebuilt from what `to_json` emits -/
@@ -209,6 +210,102 @@ theorem C05_key_codec_counterexample :
     encKey (.s "n_:5".toList) = encKey (.i 5) ∧ Key.s "n_:5".toList ≠ Key.i 5 := by
   refine ⟨?_, by decide⟩
   simp [encKey, intKeyPrefix, reprInt, natDigits, digitChar]
+
+/-! ## `pg.DNA` (compact JSON form, root metadata) -/
+
+theorem dna_keys_ne :
+    Key.s typeKey ≠ Key.s fmtKey ∧ Key.s typeKey ≠ Key.s valueKey ∧ Key.s typeKey ≠ Key.s metaKey ∧
+    Key.s typeKey ≠ Key.s cloneKey ∧ Key.s fmtKey ≠ Key.s valueKey ∧ Key.s fmtKey ≠ Key.s metaKey ∧
+    Key.s fmtKey ≠ Key.s cloneKey ∧ Key.s valueKey ≠ Key.s metaKey ∧ Key.s valueKey ≠ Key.s cloneKey ∧
+    Key.s metaKey ≠ Key.s cloneKey := by decide
+
+/-- ROUND TRIP for DNA: a DNA in normal form (`viewNorm`: the shape `DNA(<nested value>)` produces
+— C12 — and no child is the empty DNA) whose metadata sits on the root only, loads back from its compact JSON as the same
+DNA with the same metadata and cloneable-key list, provided the nested value and the metadata are
+`Encodable` (e.g. no custom-genome string `'__tuple__'` leading a list). The nested value goes
+through the plain-value codec (`C05_roundtrip`) and `DNA.parse` (`C12_compact_roundtrip`). -/
+theorem C05_dna_roundtrip (ft : FloatText) (hft : ft.Lawful) (env : ClassEnv) (hwf : env.WF = true)
+    (m : MDNA) (hn : Geno.viewNorm m.dna = true) (hne : noEmptyChild m.dna = true)
+    (hcm : m.childMeta = false)
+    (hev : Encodable false (nestTree ft (compact m.dna)) = true)
+    (hmc : Conforms env (.dict m.md) = true) (hme : Encodable false (.dict m.md) = true)
+    (hmm : NoMissing (.dict m.md) = true) :
+    dnaFromJson ft env (dnaToJson ft env m) = .ok m := by
+  obtain ⟨k1, k2, k3, k4, k5, k6, k7, k8, k9, k10⟩ := dna_keys_ne
+  have hv := C05_roundtrip env hwf false _ (nest_plain ft env _).1 hev (.inr (nest_plain ft env _).2)
+  have hmd := C05_roundtrip env hwf false _ hmc hme (.inr hmm)
+  have hparse : (treeNest ft (nestTree ft (compact m.dna))).bind Geno.parse = some m.dna := by
+    rw [treeNest_nestTree ft hft, compact_eq_toCompact m.dna hne]; exact Geno.parse_toCompact m.dna hn
+  obtain ⟨d, md, cl, cm⟩ := m
+  simp only at hn hne hcm hev hmc hme hmm hv hmd hparse
+  subst hcm
+  cases hmd0 : md.isEmpty <;> cases hcl0 : cl.isEmpty
+  all_goals
+    simp only [dnaFromJson, dnaToJson, hmd0, hcl0, Bool.false_eq_true, if_false, if_true, List.append_nil,
+      List.cons_append, List.nil_append, jlookup, k1, k2, k3, k4, k5, k6, k7, k8, k9, k10, k1.symm,
+      k2.symm, k3.symm, k4.symm, k5.symm, k6.symm, k7.symm, k8.symm, k9.symm, k10.symm, if_false, if_true,
+      beq_self_eq_true, Option.getD_some, hv, hmd, hparse, strsOfJ_map]
+  · -- md non-empty, cloneable empty
+    have : cl = [] := List.isEmpty_iff.mp hcl0
+    subst this; rfl
+  · -- md empty, cloneable non-empty
+    have : md = [] := List.isEmpty_iff.mp hmd0
+    subst this; rfl
+  · have h1 : md = [] := List.isEmpty_iff.mp hmd0
+    have h2 : cl = [] := List.isEmpty_iff.mp hcl0
+    subst h1; subst h2; rfl
+
+/-- "Every DNA loads back with all its metadata" (any float text layer) … -/
+def C05_dna_Full (ft : FloatText) : Prop :=
+  ∀ (env : ClassEnv) (m : MDNA), env.WF = true → Geno.viewNorm m.dna = true →
+    dnaFromJson ft env (dnaToJson ft env m) = .ok m
+
+/-- … is false (F200): the compact form carries the metadata of the root node only; a DNA one of
+whose children has metadata (`DNA(1, [DNA(2).set_metadata('k', 5)])`) comes back without it, so
+`pg.eq` and `pg.hash` differ although `==` (which ignores metadata) holds. -/
+theorem C05_dna_counterexample (ft : FloatText) : ¬ C05_dna_Full ft := by
+  intro h
+  have h1 := h noClasses ⟨.mk (.int 1) [.mk (.int 2) []], [], [], true⟩ rfl (by decide)
+  have h2 : dnaFromJson ft noClasses (dnaToJson ft noClasses ⟨.mk (.int 1) [.mk (.int 2) []], [], [], true⟩) =
+      .ok ⟨.mk (.int 1) [.mk (.int 2) []], [], [], false⟩ := by
+    have e1 : typeKey ≠ fmtKey := by decide
+    have e2 : typeKey ≠ valueKey := by decide
+    have e3 : fmtKey ≠ valueKey := by decide
+    have e4 : typeKey ≠ metaKey := by decide
+    have e5 : fmtKey ≠ metaKey := by decide
+    have e6 : valueKey ≠ metaKey := by decide
+    have e7 : typeKey ≠ cloneKey := by decide
+    have e8 : fmtKey ≠ cloneKey := by decide
+    have e9 : valueKey ≠ cloneKey := by decide
+    simp [dnaFromJson, dnaToJson, jlookup, e1, e2, e3, e4, e5, e6, e7, e8, e9,
+      compact, compactL, Geno.toCompact, Geno.toNested, Geno.toNestedList, Geno.nestNode, nestTree, nestTreeL, valAtom,
+      toJson, toJsonL, atomJ, fromJson, resolveOk, resolveOkL, fromJ, fromJL, jisTupleMarker, treeNest,
+      treeNestL, Geno.parse, Geno.parseTuple, Geno.numVal]
+  rw [h2] at h1
+  injection h1 with h1
+  injection h1 with _ _ _ hcm
+  cases hcm
+
+/-- F201: a DNA that is not in normal form does not survive either: `DNA(0, [DNA(None)])` (an empty
+DNA as the only child) is written as `(0, None)` and read back as `DNA(0)`. -/
+theorem C05_dna_not_normal (ft : FloatText) :
+    Geno.viewNorm (.mk (.int 0) [.mk .none []]) = false ∧
+    dnaFromJson ft noClasses (dnaToJson ft noClasses ⟨.mk (.int 0) [.mk .none []], [], [], false⟩) =
+      .ok ⟨.mk (.int 0) [], [], [], false⟩ := by
+  refine ⟨by decide, ?_⟩
+  have e1 : typeKey ≠ fmtKey := by decide
+  have e2 : typeKey ≠ valueKey := by decide
+  have e3 : fmtKey ≠ valueKey := by decide
+  have e4 : typeKey ≠ metaKey := by decide
+  have e5 : fmtKey ≠ metaKey := by decide
+  have e6 : valueKey ≠ metaKey := by decide
+  have e7 : typeKey ≠ cloneKey := by decide
+  have e8 : fmtKey ≠ cloneKey := by decide
+  have e9 : valueKey ≠ cloneKey := by decide
+  simp [dnaFromJson, dnaToJson, jlookup, e1, e2, e3, e4, e5, e6, e7, e8, e9,
+    compact, compactL, Geno.nestNode, nestTree, nestTreeL, valAtom,
+    toJson, toJsonL, atomJ, fromJson, resolveOk, resolveOkL, fromJ, fromJL, jisTupleMarker, treeNest,
+    treeNestL, Geno.parse, Geno.parseTuple, Geno.numVal]
 
 /-! ## Stand-alone typed containers (F11d, F11e) -/
 
